@@ -76,17 +76,47 @@ pub fn uni_to(r: &huginn_net::output::FingerprintResult) -> Value {
 
 /// analyze_pcap of one analyzer on a file, on its own thread: {"ok": returned Ok, "results": [...]} or {"hung": true, "results": what had arrived}
 fn file_run(krate: &str, path: &str, db: Arc<huginn_net_db::Database>, with_db: bool, cap: usize, wait_ms: u64) -> Value {
-    fn collect<T: Send + 'static>(work: impl FnOnce(std::sync::mpsc::Sender<T>) -> Result<bool, String> + Send + 'static, conv: fn(&T) -> Value, wait_ms: u64) -> Value {
+    file_run_keep(krate, path, db, with_db, cap, wait_ms, true)
+}
+
+/// keep = false: the results are taken from the channel as they arrive and only counted (what piles up in the caller's channel is not
+/// the front end's memory)
+fn file_run_keep(krate: &str, path: &str, db: Arc<huginn_net_db::Database>, with_db: bool, cap: usize, wait_ms: u64, keep: bool) -> Value {
+    fn collect<T: Send + 'static>(work: impl FnOnce(std::sync::mpsc::Sender<T>) -> Result<bool, String> + Send + 'static, conv: fn(&T) -> Value, wait_ms: u64, keep: bool) -> Value {
         let (tx, rx) = std::sync::mpsc::channel::<T>();
         let (done_tx, done_rx) = std::sync::mpsc::channel();
+        let base_live = crate::alloc_count::live();
         std::thread::spawn(move || {
             let _ = done_tx.send(guarded(|| work(tx)));
         });
-        match done_rx.recv_timeout(std::time::Duration::from_millis(wait_ms)) {
-            Ok(Ok(Ok(ok))) => json!({"ok": ok, "results": rx.try_iter().map(|r| conv(&r)).collect::<Vec<_>>()}),
-            Ok(Ok(Err(e))) => json!({"ctor_error": e, "results": []}),
-            Ok(Err(p)) => json!({"panic": p}),
-            Err(_) => json!({"hung": true, "results": rx.try_iter().map(|r| conv(&r)).collect::<Vec<_>>()}),
+        // while the front end works, the live heap is sampled every 200 us: "peak" = the most it held above what was live before
+        let t0 = std::time::Instant::now();
+        let mut peak = 0usize;
+        let mut counted = 0usize;
+        let done = loop {
+            match done_rx.recv_timeout(std::time::Duration::from_micros(200)) {
+                Ok(x) => break Some(x),
+                Err(std::sync::mpsc::RecvTimeoutError::Timeout) => {
+                    if !keep {
+                        while let Ok(r) = rx.try_recv() {
+                            counted += 1;
+                            drop(r);
+                        }
+                    }
+                    peak = peak.max(crate::alloc_count::live().saturating_sub(base_live));
+                    if t0.elapsed() > std::time::Duration::from_millis(wait_ms) {
+                        break None;
+                    }
+                }
+                Err(std::sync::mpsc::RecvTimeoutError::Disconnected) => break None,
+            }
+        };
+        match done {
+            Some(Ok(Ok(ok))) if !keep => json!({"ok": ok, "peak": peak, "results": counted + rx.try_iter().count()}),
+            Some(Ok(Ok(ok))) => json!({"ok": ok, "peak": peak, "results": rx.try_iter().map(|r| conv(&r)).collect::<Vec<_>>()}),
+            Some(Ok(Err(e))) => json!({"ctor_error": e, "results": []}),
+            Some(Err(p)) => json!({"panic": p}),
+            None => json!({"hung": true, "results": rx.try_iter().map(|r| conv(&r)).collect::<Vec<_>>()}),
         }
     }
     let p = path.to_string();
@@ -98,6 +128,7 @@ fn file_run(krate: &str, path: &str, db: Arc<huginn_net_db::Database>, with_db: 
             },
             |r: &huginn_net_tcp::TcpAnalysisResult| crate::m_tcp::result_to(r),
             wait_ms,
+            keep,
         ),
         "http" => collect(
             move |tx| {
@@ -106,6 +137,7 @@ fn file_run(krate: &str, path: &str, db: Arc<huginn_net_db::Database>, with_db: 
             },
             |r: &huginn_net_http::HttpAnalysisResult| http_result_to(r),
             wait_ms,
+            keep,
         ),
         "tls" => collect(
             move |tx| {
@@ -114,6 +146,7 @@ fn file_run(krate: &str, path: &str, db: Arc<huginn_net_db::Database>, with_db: 
             },
             |r: &huginn_net_tls::TlsClientOutput| crate::m_tls::output_to(r),
             wait_ms,
+            keep,
         ),
         "uni" => collect(
             move |tx| {
@@ -122,6 +155,7 @@ fn file_run(krate: &str, path: &str, db: Arc<huginn_net_db::Database>, with_db: 
             },
             |r: &huginn_net::output::FingerprintResult| uni_to(r),
             wait_ms,
+            keep,
         ),
         c => panic!("crate {c}"),
     }
@@ -223,6 +257,37 @@ pub fn run(input: &mut dyn BufRead, out: &mut dyn Write, _args: &[String]) -> R 
                 }
                 Err(e) => json!({"id": id, "panic": e}),
             };
+            writeln!(out, "{o}").map_err(|e| e.to_string())?;
+            continue;
+        }
+        if let Some(g) = v.get("gen_capture") {
+            // C11 (capture front ends): a capture of ONE connection -- SYN, then n segments of `len` octets (TLS application data records, or
+            // the body of an upload after a complete request head) -- written here and analysed by analyze_pcap on a thread of its own
+            let (n, len) = (g["n"].as_u64().unwrap_or(1000) as usize, g["len"].as_u64().unwrap_or(1400) as usize);
+            let kind = g["kind"].as_str().unwrap_or("tls_appdata");
+            let port = if kind == "tls_appdata" { 443 } else { 80 };
+            let (c, s_) = ([10, 77, 0, 1], [10, 77, 0, 2]);
+            let mut fs = vec![crate::m_res::frame(c, s_, 45000, port, 1000, 0x02, &[], 1)];
+            let mut seq = 1001u32;
+            if kind != "tls_appdata" {
+                let head = b"POST /upload HTTP/1.1\r\nHost: example.com\r\nUser-Agent: up/1.0\r\nContent-Length: 999999999\r\n\r\n";
+                fs.push(crate::m_res::frame(c, s_, 45000, port, seq, 0x18, head, 2));
+                seq = seq.wrapping_add(head.len() as u32);
+            }
+            for i in 0..n {
+                let mut p = if kind == "tls_appdata" { vec![0x17, 3, 3, ((len - 5) >> 8) as u8, (len - 5) as u8] } else { vec![] };
+                p.resize(len, (i % 251) as u8);
+                fs.push(crate::m_res::frame(c, s_, 45000, port, seq, 0x18, &p, (i + 3) as u16));
+                seq = seq.wrapping_add(len as u32);
+            }
+            write_pcap(&path, &fs).map_err(|e| e.to_string())?;
+            drop(fs);
+            let mut o = file_run_keep(&krate, &path, Arc::clone(&db), with_db, cap, v["wait_ms"].as_u64().unwrap_or(60000), false);
+            let _ = std::fs::remove_file(&path);
+            o["id"] = id;
+            if o["hung"].as_bool() == Some(true) {
+                hangs += 1;
+            }
             writeln!(out, "{o}").map_err(|e| e.to_string())?;
             continue;
         }
